@@ -22,12 +22,15 @@ Results for the current C code (helper lemmas in IodineModel/Lemmas/WireRead.lea
 * residue independence holds for all four decoders and `dns_get_id`, without any side condition
   (in particular without `off ≤ pkt.size`, `3 ≤ length` and `pkt.size ≤ cap`);
 * no fault holds for `readname`, `readtxtbin`, `dns_get_id`, `dns_decode(QR_QUERY)`;
-* no fault is FALSE for `dns_decode(QR_ANSWER)` as a statement about all `buflen`: the MX/SRV branch
-  overruns a small `buf` (witness below, `buflen = 4` is what `get_external_ip` in iodined.c passes), and the
-  CNAME branch writes `buf[-1]` for `buflen = 0`.  Proved instead: no fault for `buflen ≥ 63242`
-  (`= 248 * 255 + 2`; client.c passes 64 KiB; the bound is sharp — a datagram with 249 hosts overruns a
-  `buf` of 63241 bytes, both in the model and in the C code under ASan), and for every `buflen` the only
-  possible fault is that write outside the caller's `buf` — never a read outside the receive buffer.
+* no fault holds for `dns_decode(QR_ANSWER)` whenever the caller's buffer is not empty (`1 ≤ buflen`;
+  client.c passes 64 KiB, `get_external_ip` of iodined.c the 4 bytes of a `struct in_addr`).  (Before the
+  repair "keep dns_decode's MX/SRV output inside the caller's buffer" the MX/SRV output loop overran every
+  `buf` shorter than 63242 bytes: `buflen-offset-2` wrapped around in `size_t`.)
+  `buflen = 0` is the one remaining way to fault, and only by a write outside the (empty) `buf`: the CNAME
+  branch executes `buf[buflen - 1] = '\0'`, i.e. `buf[-1]`, and the MX/SRV branch its final
+  `*(buf + offset) = '\0'` with `offset = 0`; the NULL/PRIVATE, A and TXT branches copy `MIN(rv, 0) = 0` bytes and
+  return 0.  No caller passes `buflen = 0`.  For every `buflen` the decoder never reads outside the receive
+  buffer and never writes outside `name`/`rdata`/`names`.
 -/
 namespace Iodine.C12
 open Iodine Iodine.Wire
@@ -166,46 +169,68 @@ question (CHECKLEN(4) fails) -/
 example : (dnsDecodeQuery (rx query1 #[] 23)).map (·.rv) = .ok 5
     ∧ (dnsDecodeQuery (rx (query1.extract 0 21) resLabel 65536)).map (·.rv) = .ok 0 := by decide
 
-/- The strong statement
-     `∀ buflen b, b.pkt.size ≤ b.cap → ∃ r, dnsDecodeAnswer buflen b = .ok r`
-   is FALSE for the current code: -/
+/-- `dns_decode(buf, buflen, q, QR_ANSWER, …)` with a non-empty `buf` does not fault — for all packets.
+(`1 ≤ buflen` cannot be dropped: see the two witnesses below.) -/
+theorem dns_decode_answer_no_fault (b : RxBuf) (hcap : b.pkt.size ≤ b.cap) (buflen : Nat) (hbuf : 1 ≤ buflen) :
+    ∃ r, dnsDecodeAnswer buflen b = .ok r :=
+  (dnsDecodeAnswer_good b hcap buflen).1 hbuf
 
-/-- an MX answer with the hosts "ab" and "cde" decoded into a 4-byte `buf` (what `get_external_ip` of
-iodined.c passes: `dns_decode((char *)ip, sizeof(struct in_addr), …)`): after "ab\0" `offset = 3 = buflen-1`,
-`buflen-offset-2` wraps around to `SIZE_MAX` and the whole second host is copied behind `buf`. -/
-theorem dns_decode_answer_no_fault_false :
+/-- non-vacuity: the MX answer with the hosts "ab" and "cde" decodes to "ab\0cde\0\0" (rv = 7 excludes
+the final NUL) when there is room; into the 4 bytes `get_external_ip` passes it decodes to "ab\0" + NUL and
+stops (`offset + 2 >= buflen`; before the repair the second host was copied behind `buf` here); into 3 bytes
+the first host is cut to "a"; into 1 or 2 bytes nothing but the final NUL is stored.
+The CNAME answer "h" decodes to "h", cut to "" by `buf[buflen-1] = 0` when `buflen = 1`. -/
+example : dnsDecodeAnswer 65536 (rx answerMx2 resPtr 65536)
+      = .ok { rv := 7, id := 9, type := 15, rcode := 0, name := [0x61],
+              buf := [0x61, 0x62, 0, 0x63, 0x64, 0x65, 0, 0] }
+    ∧ dnsDecodeAnswer 8 (rx answerMx2 resPtr 65536)
+      = .ok { rv := 7, id := 9, type := 15, rcode := 0, name := [0x61],
+              buf := [0x61, 0x62, 0, 0x63, 0x64, 0x65, 0, 0] }
+    ∧ dnsDecodeAnswer 4 (rx answerMx2 resPtr 65536)
+      = .ok { rv := 3, id := 9, type := 15, rcode := 0, name := [0x61], buf := [0x61, 0x62, 0, 0] }
+    ∧ dnsDecodeAnswer 3 (rx answerMx2 resPtr 65536)
+      = .ok { rv := 2, id := 9, type := 15, rcode := 0, name := [0x61], buf := [0x61, 0, 0] }
+    ∧ dnsDecodeAnswer 2 (rx answerMx2 resPtr 65536)
+      = .ok { rv := 0, id := 9, type := 15, rcode := 0, name := [0x61], buf := [0] }
+    ∧ dnsDecodeAnswer 1 (rx answerMx2 resPtr 65536)
+      = .ok { rv := 0, id := 9, type := 15, rcode := 0, name := [0x61], buf := [0] }
+    ∧ dnsDecodeAnswer 2 (rx answerCname1 resPtr 65536)
+      = .ok { rv := 1, id := 7, type := 5, rcode := 0, name := [0x61], buf := [0x68] }
+    ∧ dnsDecodeAnswer 1 (rx answerCname1 resPtr 65536)
+      = .ok { rv := 0, id := 7, type := 5, rcode := 0, name := [0x61], buf := [] } := by decide
+
+/-- `buflen = 0`: a CNAME answer executes `buf[buflen - 1] = '\0'` (a write at `buf[-1]`), an MX/SRV answer
+the final `*(buf + offset) = '\0'` at `buf[0]` of an empty buffer; a NULL answer is harmless (0 bytes copied,
+rv = 0). -/
+example : dnsDecodeAnswer 0 (rx answerCname1 #[] 65536) = .error .oobWrite
+    ∧ dnsDecodeAnswer 0 (rx answerMx2 #[] 65536) = .error .oobWrite
+    ∧ dnsDecodeAnswer 0 (rx answerNull4 #[] 65536)
+      = .ok { rv := 0, id := 0x1234, type := 10, rcode := 0, name := [0x61], buf := [] } := by decide
+
+/-- hence the statement without `1 ≤ buflen` is false -/
+theorem dns_decode_answer_no_fault_needs_buflen :
     ¬ ∀ (buflen : Nat) (b : RxBuf), b.pkt.size ≤ b.cap → ∃ r, dnsDecodeAnswer buflen b = .ok r := by
   intro h
-  obtain ⟨r, hr⟩ := h 4 (rx answerMx2 #[] 65536) (by decide)
-  have : dnsDecodeAnswer 4 (rx answerMx2 #[] 65536) = .error .oobWrite := by decide
+  obtain ⟨r, hr⟩ := h 0 (rx answerCname1 #[] 65536) (by decide)
+  have : dnsDecodeAnswer 0 (rx answerCname1 #[] 65536) = .error .oobWrite := by decide
   rw [this] at hr
   cases hr
 
-/-- … and a CNAME answer decoded with `buflen = 0` executes `buf[buflen - 1] = '\0'`. -/
-example : dnsDecodeAnswer 0 (rx answerCname1 #[] 65536) = .error .oobWrite := by decide
-
-/-- no fault for a `buf` of at least `248 * 255 + 2` bytes (client.c passes 64 KiB) -/
-theorem dns_decode_answer_no_fault_partial (b : RxBuf) (hcap : b.pkt.size ≤ b.cap) (buflen : Nat)
-    (hbuf : 63242 ≤ buflen) : ∃ r, dnsDecodeAnswer buflen b = .ok r :=
-  (dnsDecodeAnswer_good b hcap buflen).1 hbuf
-
-/-- non-vacuity: the MX answer decodes to "ab\0cde\0\0" (rv = 7 excludes the final NUL);
-the CNAME answer to "h" -/
-example : dnsDecodeAnswer 63242 (rx answerMx2 resPtr 65536)
-      = .ok { rv := 7, id := 9, type := 15, rcode := 0, name := [0x61],
-              buf := [0x61, 0x62, 0, 0x63, 0x64, 0x65, 0, 0] }
-    ∧ dnsDecodeAnswer 63242 (rx answerCname1 resPtr 65536)
-      = .ok { rv := 1, id := 7, type := 5, rcode := 0, name := [0x61], buf := [0x68] } := by decide
-
-/-- for EVERY `buflen`: the only fault `dns_decode(QR_ANSWER)` can run into is the write outside the
-caller's `buf` shown above — it never reads outside the receive buffer, never writes outside
+/-- for EVERY `buflen` (also 0): the only fault `dns_decode(QR_ANSWER)` can run into is that write outside
+the caller's `buf` — it never reads outside the receive buffer, never writes outside
 `name`/`rdata`/`names`, never runs out of fuel. -/
 theorem dns_decode_answer_only_buf_fault (b : RxBuf) (hcap : b.pkt.size ≤ b.cap) (buflen : Nat) (f : Fault)
     (h : dnsDecodeAnswer buflen b = .error f) : f = .oobWrite :=
   (dnsDecodeAnswer_good b hcap buflen).2 f h
 
-example : dnsDecodeAnswer 3 (rx answerMx2 #[] 65536) = .error .oobWrite
-    ∧ (dnsDecodeAnswer 5 (rx answerMx2 #[] 65536)).map (·.rv) = .ok 3
-    ∧ (dnsDecodeAnswer 8 (rx answerMx2 #[] 65536)).map (·.rv) = .ok 7 := by decide
+/-- … and with `dns_decode_answer_no_fault`: a fault implies `buflen = 0` -/
+theorem dns_decode_answer_fault_only_empty_buf (b : RxBuf) (hcap : b.pkt.size ≤ b.cap) (buflen : Nat) (f : Fault)
+    (h : dnsDecodeAnswer buflen b = .error f) : buflen = 0 ∧ f = .oobWrite := by
+  refine ⟨?_, dns_decode_answer_only_buf_fault b hcap buflen f h⟩
+  apply Decidable.byContradiction
+  intro hb
+  obtain ⟨r, hr⟩ := dns_decode_answer_no_fault b hcap buflen (by omega)
+  rw [hr] at h
+  cases h
 
 end Iodine.C12
